@@ -324,6 +324,7 @@ def run(ctx: Ctx) -> None:
     from ..rules import memo as _memo
     _memo.rule_memo_sound(ctx, ['graphiq/utils/circuit_comparison.py'])
     _memo.rule_falsy_zero(ctx, ['graphiq/utils/circuit_comparison.py'])
+    _memo.rule_arg_names(ctx, ['graphiq/utils/circuit_comparison.py'])
     from .c12 import rule_nodekeys
     rule_nodekeys(ctx)  # the label index these functions query (wrapper / identity / gate labels) is maintained by add/remove/replace
     rule_cmp_fields(ctx)
